@@ -49,6 +49,8 @@ pub use self::{
 mod behaviour;
 mod handler;
 mod protocol;
+#[cfg(libp2p_verif)]
+pub mod verif;
 
 mod proto {
     #![allow(unreachable_pub)]
